@@ -63,6 +63,18 @@ def run(rep, work, rng, tier):
                 lines += ['frame 0 %s %s' % (tgt, lit.text()), 'snap 0']
             if pn and rng.random() < 0.5: lines += ['point 0 ' + harness.hx(b'added'), 'snap 0']
         cases.append(('ld%d' % i, lines)); kinds['reload-then-edit'] = kinds.get('reload-then-edit', 0) + 1
+    # a data set of ONE frame whose frame is replaced by one with another (uniform) sub-frame count: the new count is the
+    # data set's; header, parameters and data must agree at once (not only after the next append)
+    for i in range(max(10, n // 10)):
+        names = apihist.uniq_names(rng, rng.choice([0, 1, 2]), pad=False); chans = apihist.uniq_names(rng, rng.choice([1, 2, 3]), b'c', pad=False)
+        s1, s2 = rng.sample([1, 2, 3, 5, 10], 2)
+        lines = ['new 0'] + ['point 0 ' + hx(x) for x in names] + ['analog 0 ' + hx(x) for x in chans]
+        lines += ['P.new x52415445 x', 'P.set F 0 1 42c80000', 'param 0 x504f494e54',
+                  'P.new x52415445 x', 'P.set F 0 1 %s' % harness.fhex(harness.f2bits(100.0 * s1)), 'param 0 x414e414c4f47', 'snap 0']
+        lines += ['frame 0 - ' + apihist.rand_lit(rng, names, chans, s1).text(), 'snap 0']
+        lines += ['frame 0 0 ' + apihist.rand_lit(rng, names, chans, s2).text(), 'snap 0']
+        lines += ['frame 0 - ' + apihist.rand_lit(rng, names, chans, s2).text(), 'snap 0']
+        cases.append(('rs%d' % i, lines)); kinds['single-frame-replaced-other-subframe-count'] = kinds.get('single-frame-replaced-other-subframe-count', 0) + 1
     (cres, cown, _), (mres, mown, _) = harness.run_both(cases, work, model_env={'EZ_INV': '1'}, shared=shared)
     # the Coq predicate (extracted) evaluated on every model snapshot: lines "I b0..b9"; strip them before comparing
     coq_reports = {}; typed = {}
